@@ -2014,6 +2014,26 @@ func (ex *Exec) invoke(f *Frame, call *ssa.Call, recv IfaceV, m *types.Func, arg
 		return h(ex, f, call, recv, args, reach)
 	}
 	impls := ex.P.implementers(it)
+	// a wide case split under a non-trivial reach condition: make sure the call is
+	// reachable at all before executing every implementation (unrolled loops reach
+	// here on iterations that cannot happen)
+	if len(impls) > 3 && !reach.IsTrue() && ex.specDepth == 0 && ex.cfg.bytesLayer {
+		nf := 0
+		for _, t := range impls {
+			if !And(reach, Eq(recv.Tag, Int(int64(ex.P.typeID(t))))).IsFalse() {
+				nf++
+			}
+		}
+		if nf > 3 && ex.tryProve(Not(reach), cutTimeoutMs*2) {
+			ex.assumeGlobal(Not(reach))
+			if call.Type() != nil {
+				if tt, ok := call.Type().(*types.Tuple); !ok || tt.Len() > 0 {
+					return ex.zeroValue(call.Type()), False()
+				}
+			}
+			return nil, False()
+		}
+	}
 	var res Value
 	first := true
 	okAll := False()
